@@ -17,6 +17,12 @@ Binding
     async environments); outcome class, value, error message and log records
     are compared with what TLC printed.
 
+Spec: spec/UndefinedEnvs.tla says WHICH undefined type governs a template (plain /
+sandboxed / immutable environments, overlays with another type, every order of overlay
+creation and template loading over per-environment template caches); TLC prints the
+histories, `run_sessions` replays them on real environments and executes cases of the
+table for the type TLC named in the last step.
+
 Python holds no table of expected outcomes: it only knows how to *perform* an
 operation and how to *recognise* an abstract value the spec names.
 """
@@ -592,6 +598,165 @@ def run_templates(ck, W, case, is_async, entry="auto", only=None):
 
 
 # --------------------------------------------------------------------------
+# which undefined type governs: environments, overlays, load order (spec/UndefinedEnvs.tla)
+# --------------------------------------------------------------------------
+
+TYPE_NAMES = {f"{b}{'+log' if lg else ''}": (b, lg) for b in ("Undefined", "Chainable", "Debug", "Strict") for lg in (False, True)}
+ENV_KINDS = ("plain", "sandbox", "immutable")
+
+
+def envs_cfg(kinds, overlay_kinds, max_envs, max_steps, warm=False, emit=True):
+    def s(xs):
+        return "{" + ", ".join(core.tla_str(x) for x in xs) + "}"
+
+    return f"""CONSTANTS
+  Kinds = {s(kinds)}
+  OverlayKinds = {s(overlay_kinds)}
+  Types = {s(sorted(TYPE_NAMES))}
+  MaxEnvs = {max_envs}
+  MaxSteps = {max_steps}
+  WarmOverlay = {"TRUE" if warm else "FALSE"}
+  Emit = {"TRUE" if emit else "FALSE"}
+SPECIFICATION Spec
+INVARIANT TypeOK
+INVARIANT C21_OverlayKeepsKind
+INVARIANT C21_TemplateBehavesAsItsEnvironment
+INVARIANT C21_CachesAreOwn
+"""
+
+
+def session_loader():
+    """A loader whose templates are named by their source (the code is compiled once per compiler mode)."""
+    import jinja2
+
+    class SourceLoader(jinja2.BaseLoader):
+        def get_source(self, environment, name):
+            return name, None, None
+
+        def load(self, environment, name, globals=None):
+            key = ("session", bool(environment.sandboxed), name)
+            code = _CODE.get(key)
+            if code is None:
+                code = _CODE[key] = environment.compile(name)
+            return environment.template_class.from_code(environment, code, environment.make_globals(globals), None)
+
+    return SourceLoader()
+
+
+def env_class(kind):
+    import jinja2
+    from jinja2 import sandbox
+
+    return {"plain": jinja2.Environment, "sandbox": sandbox.SandboxedEnvironment,
+            "immutable": sandbox.ImmutableSandboxedEnvironment}[kind]
+
+
+def case_key(cs):
+    return (cs["origin"], cs["op"], cs["side"], cs["other"])
+
+
+def session_keys(sess, index, keys_full, keys_probe, seed, stride):
+    """Which cases of the table the last Get of a history executes (a sampling policy, not an expectation):
+    a fresh sandboxed environment runs the whole depth-0 slice, every other history a rotating probe."""
+    if len(sess) == 2 and sess[0]["kind"] != "plain":
+        return keys_full
+    off = (index * 7 + seed) % stride
+    return keys_probe[off::stride]
+
+
+def run_session(ck, ws, table, sess, keys, only=None):
+    """Replay one history of UndefinedEnvs.tla on real environments; the last step (a Get) is judged with the
+    cases the table of Undefined.tla has for the type TLC named in that step."""
+    loader = session_loader()
+    envs = []
+    n = 0
+    for i, st in enumerate(sess):
+        W = ws[TYPE_NAMES[st["ty"]]]
+        if st["act"] == "new":
+            envs.append(env_class(st["kind"])(undefined=W.cls, loader=loader))
+            continue
+        if st["act"] == "overlay":
+            envs.append(envs[st["parent"] - 1].overlay(undefined=W.cls))
+            continue
+        env = envs[st["env"] - 1]
+        final = i == len(sess) - 1
+        for key in keys:
+            case = table[TYPE_NAMES[st["ty"]]].get(key)
+            if case is None:
+                case = next((table[t][key] for t in table if key in table[t]), None)  # only to name the templates
+                if case is None or final:
+                    continue
+            for via, src, tmap in template_forms(case, False):
+                name = f"session:{via}"
+                if only and name != only:
+                    continue
+                try:
+                    t = env.get_template(src)
+                except Exception as e:  # noqa
+                    raise core.MachineryError(f"template {src!r} did not load: {e!r}")
+                if not final:
+                    continue  # an earlier Get of the history: the template is in the cache of that environment now
+                ctx = W.context(env, case["other"])
+                del W.handler.records[:]
+                try:
+                    outcome = ("value", t.render(**ctx))
+                except Exception as e:  # noqa
+                    outcome = ("raises", e)
+                judge(ck, W, dict(case, source=src, session=sess, env=f"{st['kind']} environment #{st['env']}"), name,
+                      outcome, None, list(W.handler.records), text_map=tmap or {})
+                n += 1
+    return n
+
+
+def session_table(cases):
+    table = {t: {} for t in TYPE_NAMES.values()}
+    for cs in cases:
+        if cs["base"] != "Defined" and not cs["path"]:
+            table[(cs["base"], cs["logging"])][case_key(cs)] = cs
+    return table
+
+
+def run_sessions(ck, ws, cases, quick, dog):
+    """spec/UndefinedEnvs.tla: TLC enumerates the histories (root environment of every kind and type, overlays with
+    another type before / after / between loads) and names the governing type; the real environments replay them."""
+    kinds = list(ENV_KINDS)
+    okinds = ["plain", "sandbox"] if quick else kinds
+    steps = 4 if quick else 5
+    r = core.run_tlc(PID, "UndefinedEnvs", envs_cfg(kinds, okinds, 2, steps), name="envs", coverage=quick, workers=1)
+    ck.add_tlc(r, "UndefinedEnvs: which undefined type governs (environment kinds, overlays, load order)")
+    if quick:
+        ck.require_coverage(r, ["New", "Overlay", "Get"])
+    # negative control: an overlay that inherits its parent's cache entries must break the invariant
+    rn = core.run_tlc(PID, "UndefinedEnvs", envs_cfg(["plain"], ["plain"], 2, 4, warm=True, emit=False).replace("INVARIANT C21_CachesAreOwn\n", ""), name="envs-warm", workers=1)
+    ck.add_tlc(rn, "UndefinedEnvs: negative control (overlay starts with the parent's cache entries)", expect_ok=False)
+    if rn.ok or "C21_TemplateBehavesAsItsEnvironment" not in str(rn.invariant_violated):
+        raise core.MachineryError("vacuous model: a warm overlay cache does not violate C21_TemplateBehavesAsItsEnvironment")
+    sessions = [json.loads(l) for l in sorted(set(r.printed()))]
+    if len(sessions) < 100:
+        raise core.MachineryError(f"UndefinedEnvs.tla printed only {len(sessions)} histories")
+    table = session_table(cases)
+    allkeys = sorted({k for t in table.values() for k in t})
+    keys_full = [k for k in allkeys if k[3] in ("none", "int")]
+    keys_probe = [k for k in allkeys if k[3] == "none"]
+    stride = 31 if quick else 7
+    n = 0
+    for i, sess in enumerate(sessions):
+        if len(ck.violations) > 200:
+            ck.extra["stopped_early"] = f"more than 200 violations after {i} of {len(sessions)} environment histories"
+            break
+        last = sess[-1]
+        b, lg = TYPE_NAMES[last["ty"]]
+        dog.arm({"session": sess}, f"environment history {[s['act'] for s in sess]} ending in {last['kind']}/{last['ty']}",
+                {"kind": "undefined-op", "op": "session", "base": b, "got": "hang", "expected": "value", "logging": lg})
+        n += run_session(ck, ws, table, sess, session_keys(sess, i, keys_full, keys_probe, ck.seed or 0, stride))
+        if i % 499 == 0:
+            ck.sample({"history": [f"{s['act']}({s['env']},{s['kind']},{s['ty']})" for s in sess]})
+    ck.extra["environment_histories"] = len(sessions)
+    ck.extra["history_renders"] = n
+    return n
+
+
+# --------------------------------------------------------------------------
 
 def worlds():
     ws = {}
@@ -663,6 +828,8 @@ def run(ck):
             n_tpl += run_templates(ck, W, cs, True, entry="render")
         if i % 4001 == 0:
             ck.sample({k: cs[k] for k in ("base", "logging", "origin", "path", "op", "side", "other")} | {"documented": cs["res"]["kind"] + ":" + cs["res"]["val"]})
+    if len(ck.violations) <= 200:
+        n_tpl += run_sessions(ck, ws, cases, quick, dog)
     dog.disarm()
     ck.traces += n_direct + n_tpl
     ck.evaluations += n_direct + n_tpl
@@ -689,6 +856,9 @@ def run(ck):
         "undefined values whose exception class is not UndefinedError (sandbox unsafe_undefined)",
     ]
     ck.assumptions += [
+        "environment histories (UndefinedEnvs.tla): one root environment and one overlay, one loader, sync rendering; a fresh "
+        "sandboxed environment executes the whole depth-0 table (other operands none / int), every other history a rotating "
+        "probe of it (sampled)",
         "other operands are int, float, str, list, None, a second undefined of the same class and, for == / !=, a second "
         "undefined of each plain class (made by a second environment) and the value of an else-less inline if",
         "log records are observed through a logging.Handler attached to the logger given to make_logging_undefined",
@@ -706,7 +876,13 @@ def replay(ck, rec):
     W = World(c["base"], c["logging"])
     W.hint = c["res"]["msg"]["frag"] if c["origin"] == "hint" else "custom hint h1 for the missing thing"
     via = c.get("via", "")
-    case = {k: v for k, v in c.items() if k not in ("via", "check", "source")}
+    case = {k: v for k, v in c.items() if k not in ("via", "check", "source", "session", "env")}
+    if via.startswith("session:"):
+        ws = worlds()
+        set_hint(ws, W.hint)
+        table = {t: {case_key(case): case} for t in TYPE_NAMES.values()}
+        run_session(ck, ws, table, c["session"], [case_key(case)], only=via)
+        return
     if via.startswith("template"):
         is_async = via.startswith("template-async")
         entry = "render" if via.endswith(":render") else "auto"
